@@ -138,6 +138,22 @@ def check(inp):
         if b[0] == "internal":
             return "--option %s: internal exception %s" % (inp["text"], b[1])
         return None
+    if kind == "language_override":
+        # the command line wins over the file: --language c on a file that says c++ equals a file that says c
+        a = run(YAML % ("language: %s" % inp["cli"]))
+        b = run(YAML % ("language: %s" % inp["yaml"]), language=inp["cli"])
+        if a != b:
+            return "--language %s on a file with 'language: %s' differs from a file with 'language: %s'" % (inp["cli"], inp["yaml"], inp["cli"])
+        return None
+    if kind == "option_override":
+        name = inp["name"]
+        a = run(YAML % ("options:\n  %s: %s" % (name, inp["cli"])))
+        b = run(YAML % ("options:\n  %s: %s" % (name, inp["yaml"])), option=["%s=%s" % (name, inp["cli"])])
+        if a[0] == "internal" or b[0] == "internal":
+            return None
+        if a != b:
+            return "--option %s=%s on a file with %s: %s differs from a file with %s: %s" % (name, inp["cli"], name, inp["yaml"], name, inp["cli"])
+        return None
     if kind == "language":
         a = run(YAML % ("language: %s" % inp["lang"]))
         b = run(YAML % "", language=inp["lang"])
@@ -160,6 +176,11 @@ def candidates(seed, around=None):
     yield {"kind": "create_wrapper_relative"}
     for lang in ("c", "c++"):
         yield {"kind": "language", "lang": lang}
+    yield {"kind": "language_override", "yaml": "c++", "cli": "c"}
+    yield {"kind": "language_override", "yaml": "c", "cli": "c++"}
+    for n, y, c in (("F_line_length", "100", "60"), ("debug", "false", "true"), ("wrap_fortran", "true", "false"),
+                    ("C_name_template", "{C_prefix}YY{function_name}", "{C_prefix}XX{function_name}")):
+        yield {"kind": "option_override", "name": n, "yaml": y, "cli": c}
     for t in ("debug", "foo=", "=3", "F_line_length", "a=b=c"):
         yield {"kind": "malformed", "text": t}
     opts = [("F_line_length", "40", "40"), ("C_line_length", "30", "30"), ("debug", "true", "true"), ("debug", "True", "True"),
